@@ -20,12 +20,14 @@ def correct_wants(groups, ref, j, since):
     r = ref[j]
     if not r['runs']:
         return []
-    acc = ''.join(ref[i]['out'] for i in range(since, j + 1) if ref[i].get('runs'))
+    from ..oracle import checker_spec
+    # a want is written as the VISIBLE text (terminal control sequences are removed before comparing)
+    acc = checker_spec.strip_ansi(''.join(ref[i]['out'] for i in range(since, j + 1) if ref[i].get('runs')))
     c = []
     if acc.strip():
         c.append(('all-stdout', acc.rstrip('\n')))
-    if g.is_expr and g.out.strip() and g.out != acc:
-        c.append(('last-stdout', g.out.rstrip('\n')))
+    if g.is_expr and g.out.strip() and checker_spec.strip_ansi(g.out) != acc:
+        c.append(('last-stdout', checker_spec.strip_ansi(g.out).rstrip('\n')))
     if g.is_expr and g.val not in (None, 'RAISES', 'None'):
         c.append(('value-repr', g.val))
     return c
